@@ -194,7 +194,16 @@ def r1(ctx, rep):
         rep.finding(R1, f'C06.R1/Branch.append/{p}', m.loc(COMMON, fn), 'Branch.append',
                     f'{p}; example pre-state/arrival: {ex}')
     rep.floor('C06.R1', 'pre-state x arrival cases', n, 4000)
-    # closed branches refuse first (folded: raises and leaves every container as it was)
+    ok = closed_guard_ok(ctx)
+    rep.instance(R1, ok=ok, nontrivial='closed-guard')
+    if not ok:
+        rep.finding(R1, 'C06.R1/Branch.append/closed-guard', m.loc(COMMON, fn), 'Branch.append', 'does not refuse a closed branch before changing anything')
+
+
+def closed_guard_ok(ctx):
+    "Branch.append folded on a closed branch: it raises and leaves every container as it was (shared with C16.R3)"
+    m = ctx.m
+    fn = m.func(COMMON, 'Branch.append')
     it = Interp(dict(Emsg=Obj('Emsg', IllegalState=lambda *a: Exception('IllegalState')), Node=Obj('Node', Key=Obj('Key', sentence='sentence', world='world', world1='world1', world2='world2'),
                                                                                            for_mapping=lambda mp: mp),
                      Branch=Obj('Branch', Events=Obj('Events', AFTER_ADD='AFTER_ADD'))), where='proof/common.py Branch.append', modtree=m.trees[COMMON])
@@ -206,10 +215,7 @@ def r1(ctx, rep):
         raised = False
     except (Raised, Exception):
         raised = True
-    ok = raised and not log and br._nodes == [] and not br._constants and not br._worlds and br._nextworld == 0
-    rep.instance(R1, ok=ok, nontrivial='closed-guard')
-    if not ok:
-        rep.finding(R1, 'C06.R1/Branch.append/closed-guard', m.loc(COMMON, fn), 'Branch.append', 'does not refuse a closed branch before changing anything')
+    return raised and not log and br._nodes == [] and not br._constants and not br._worlds and br._nextworld == 0
 
 
 def r2(ctx, rep):
